@@ -457,6 +457,14 @@ def build_corpus(tier, seed):
     return entries
 
 
+def edition_for(tag):
+    """Corpora of odd seeds are compiled as edition-2021 crates, those of even seeds as edition 2018: the macro's output
+    takes the edition of the calling crate (closure captures, prelude, reserved syntax differ)."""
+    import re
+    digits = re.sub(r"\D", "", tag)
+    return "2021" if digits and int(digits) % 2 == 1 else "2018"
+
+
 def write_crate(outdir, join_repo, vrt_path, entries, nshards=16, tag="x", skip=()):
     import os
     os.makedirs(os.path.join(outdir, "src", "bin"), exist_ok=True)
@@ -464,7 +472,7 @@ def write_crate(outdir, join_repo, vrt_path, entries, nshards=16, tag="x", skip=
         f.write("""[package]
 name = "big_corpus"
 version = "0.1.0"
-edition = "2018"
+edition = "%s"
 
 [dependencies]
 join = { path = "%s/join" }
@@ -478,7 +486,7 @@ incremental = false
 opt-level = 0
 
 [workspace]
-""" % (join_repo, vrt_path))
+""" % (edition_for(tag), join_repo, vrt_path))
     shards = [[] for _ in range(nshards)]
     # the big programs are expensive to compile: spread them first
     ordered = sorted(entries, key=lambda e: -len(e[2]))
